@@ -42,7 +42,7 @@ def corpus():
             {'case': {'script': [hx(b'GET x HTTP/1.1\r\n\r\n'), hx(r1), hx(r2)], 'eof': True, 'fresh': True, 'real': True}},
             # was: the value a fang wrote into the public field `ip` for one request was still there for the next
             {'case': {'script': [hx(b'GET /a HTTP/1.1\r\nX-Set-Ip: 203.0.113.9\r\n\r\n'), hx(r2), hx(b'GET /b HTTP/1.1\r\nX-Set-Ip: 2001:db8::7\r\n\r\n'), hx(r2)], 'eof': True, 'fresh': True, 'real': True}},
-            # was: the Keep-Alive timeout bounded the life of the session, handler and response included (real time, OHKAMI_KEEPALIVE_TIMEOUT=1)
+            # was: the Keep-Alive timeout bounded the life of the session, handler and response included (real time, OHKAMI_KEEPALIVE_TIMEOUT=2)
             {'case': {'timed': True}}]
 
 
@@ -83,16 +83,16 @@ def against_fresh(res, fresh, who, script=None):
 
 
 def judge_timed(out):
-    """the session loop in real time (OHKAMI_KEEPALIVE_TIMEOUT=1): a request that comes within the Keep-Alive timeout of the previous response is answered as it
+    """the session loop in real time (OHKAMI_KEEPALIVE_TIMEOUT=2): a request that comes within the Keep-Alive timeout of the previous response is answered as it
     would be alone, however old the session is and however long its handler takes"""
     t = out.get('timed')
     if not t: return [('violation', f'the timed scenarios did not run: {str(out)[:160]}')]
     v = []
     def answers(name): return unhx(t[name]['all']).count(b'HTTP/1.1 200 OK\r\n'), unhx(t[name]['all'])
     n, raw = answers('keepalive')
-    if n != 3 or raw.count(b'\r\n\r\nroot') != 3: v.append(('violation', f'three requests 0.6 s apart on one connection (Keep-Alive timeout 1 s): {n} answered; alone each is answered 200 "root"'))
+    if n != 4 or raw.count(b'\r\n\r\nroot') != 4: v.append(('violation', f'four requests 0.9 s apart on one connection (Keep-Alive timeout 2 s): {n} answered; alone each is answered 200 "root"'))
     n, raw = answers('slow')
-    if n != 1 or not raw.endswith(b'slow'): v.append(('violation', f'a request whose handler takes 1.4 s (Keep-Alive timeout 1 s) got {raw[-60:]!r}; alone on a fresh connection it IS this case: the answer is 200 "slow"'))
+    if n != 1 or not raw.endswith(b'slow'): v.append(('violation', f'a request whose handler takes 3 s (Keep-Alive timeout 2 s) got {raw[-60:]!r}; alone on a fresh connection it IS this case: the answer is 200 "slow"'))
     n, raw = answers('idle')
     if n != 1: v.append(('violation', f'a single request got {n} answers'))
     return v
